@@ -472,14 +472,6 @@ pub fn show_key(k: &[u8]) -> String {
     }
 }
 
-fn other_metric(m: Metric) -> Metric {
-    if m == Metric::Euclidean {
-        Metric::Cosine
-    } else {
-        Metric::Euclidean
-    }
-}
-
 /// C05 + C06 observations of every index through the public API on `rtxn`.
 fn observe(cfg: &TxnCfg, db: RawDb, rtxn: &RoTxn, model: &Model, kv: &Kv, ctx: &str, w: &mut Worker) -> Vec<Violation> {
     let mut out = Vec::new();
@@ -561,23 +553,27 @@ fn observe_index(cfg: &TxnCfg, db: RawDb, rtxn: &RoTxn, index: u16, ix: &IndexMo
                 if got != want {
                     return e(&format!("SL/open:{want}"), format!("Reader::open = {got}, expected {want} (built: {built}, stale: {})", ix.stale));
                 }
-                // another metric
-                let om = other_metric(metric);
-                let got_other = with_metric!(om, OD => {
-                    match arroy::Reader::<OD>::open(rtxn, index, arroy_db::<OD>(db)) {
-                        Ok(_) => "Ok".to_string(),
-                        Err(x) => ErrKind::of(&x).tag(),
+                // every other metric
+                for om in M7 {
+                    if om == metric {
+                        continue;
                     }
-                });
-                let ok = if !built {
-                    got_other == "MissingMetadata"
-                } else if ix.stale {
-                    got_other == "UnmatchingDistance" || got_other == "NeedBuild"
-                } else {
-                    got_other == "UnmatchingDistance"
-                };
-                if !ok {
-                    return e("SL/open-wrong-metric", format!("Reader::<{}>::open on an index of metric {} (built: {built}, stale: {}) = {got_other}", om.short(), metric.short(), ix.stale));
+                    let got_other = with_metric!(om, OD => {
+                        match arroy::Reader::<OD>::open(rtxn, index, arroy_db::<OD>(db)) {
+                            Ok(_) => "Ok".to_string(),
+                            Err(x) => ErrKind::of(&x).tag(),
+                        }
+                    });
+                    let ok = if !built {
+                        got_other == "MissingMetadata"
+                    } else if ix.stale {
+                        got_other == "UnmatchingDistance" || got_other == "NeedBuild"
+                    } else {
+                        got_other == "UnmatchingDistance"
+                    };
+                    if !ok {
+                        return e("SL/open-wrong-metric", format!("Reader::<{}>::open on an index of metric {} (built: {built}, stale: {}) = {got_other}", om.short(), metric.short(), ix.stale));
+                    }
                 }
                 w.count("staleness_observations", 1);
                 match want {
